@@ -26,7 +26,7 @@ import (
 
 type NetOp struct {
 	Node       string    `json:"node"` // L | L2 | R
-	Op         string    `json:"op"`   // commit | fetch | push | pull | merge | rtag | leftover | pullall (pull --all) | pushall (push --all)
+	Op         string    `json:"op"`   // commit | fetch | push | pull | merge | rtag | leftover | diamond (uneven merge built on the node) | pullall (pull --all) | pushall (push --all)
 	Branch     string    `json:"branch,omitempty"`
 	Variant    int       `json:"variant,omitempty"`
 	Force      bool      `json:"force,omitempty"`
@@ -183,6 +183,14 @@ func genNetPlan(r *Rand, tier string, focus string, faults bool) NetPlan {
 			b := Pick(r, netBranches)
 			cl := Pick(r, []string{"L", "L2"})
 			p.Ops = append(p.Ops, NetOp{Node: cl, Op: "bigchain", Branch: b, Variant: Pick(r, []int{257, 300, 520})}, NetOp{Node: cl, Op: "push", Branch: b, Force: true})
+			continue
+		}
+		if focus == "C09" && r.Chance(0.06) {
+			// a merge with arms of different lengths on the remote, fetched at a depth limit: what is "within depth" is
+			// decided by the shortest path from the tip, whichever parent the merge lists first
+			b := Pick(r, netBranches)
+			p.Ops = append(p.Ops, NetOp{Node: "R", Op: "diamond", Branch: b, Variant: Pick(r, []int{12, 13, 21, 31, 14, 41, 23, 32, 11, 22}), Force: r.Chance(0.5)},
+				NetOp{Node: Pick(r, []string{"L", "L2"}), Op: "fetch", Depth: r.Range(2, 4), Specs: []NetSpec{{Branch: b, Plus: true}}})
 			continue
 		}
 		if focus == "C09" && r.Chance(0.08) {
@@ -737,6 +745,76 @@ func execNet(t *testing.T, raw json.RawMessage, res *Result, focus string) {
 			n.Objs.TakeMonErrs()
 			res.probe("big_chain_of_tables", 1)
 			continue
+		case "diamond":
+			// a merge with arms of different lengths, built through the library on op.Node (also R): a new base commit on
+			// top of the branch, op.Variant/10 commits on the first arm, op.Variant%10 on the second, and a merge commit
+			// whose parents are listed first-arm-first (Force: the other way round). A commit's distance from the tip is
+			// the length of the SHORTEST parent path; every commit has a table of its own.
+			la, lb := op.Variant/10, op.Variant%10
+			if !validBranch || la < 1 || la > 6 || lb < 1 || lb > 6 {
+				res.Invalid("diamond")
+				return
+			}
+			{
+				db, err := n.OpenRef()
+				if err != nil {
+					res.Invalid("%v", err)
+					return
+				}
+				head, _ := ref.GetHead(db, op.Branch)
+				seq := 0
+				mk := func(parents ...[]byte) []byte {
+					tcols, trows := []string{"id", "v"}, [][]string{{fmt.Sprintf("%d", seq), fmt.Sprintf("diamond-%d-%d", i, seq)}}
+					srt, err := sorter.NewSorter()
+					if err != nil {
+						return nil
+					}
+					tsum, err := ingest.IngestTable(n.Objs, srt, io.NopCloser(bytes.NewReader(CSVText(tcols, trows, ','))), []string{"id"}, logr.Discard(), ingest.WithNumWorkers(1))
+					if err != nil {
+						return nil
+					}
+					com := &objects.Commit{Table: tsum, AuthorName: "dia", AuthorEmail: "dia@x", Message: fmt.Sprintf("diamond %d", seq), Time: bubbleEpoch.Add(n.Clock + time.Duration(seq)*time.Second)}
+					seq++
+					for _, p := range parents {
+						if p != nil {
+							com.Parents = append(com.Parents, p)
+						}
+					}
+					var cb bytes.Buffer
+					com.WriteTo(&cb)
+					csum, err := objects.SaveCommit(n.Objs, cb.Bytes())
+					if err != nil {
+						return nil
+					}
+					return csum
+				}
+				base := mk(head)
+				a, b := base, base
+				for k := 0; k < la && a != nil; k++ {
+					a = mk(a)
+				}
+				for k := 0; k < lb && b != nil; k++ {
+					b = mk(b)
+				}
+				var m []byte
+				if a != nil && b != nil {
+					if op.Force {
+						m = mk(b, a)
+					} else {
+						m = mk(a, b)
+					}
+				}
+				if m == nil {
+					db.Close()
+					res.Invalid("diamond: building the commits failed")
+					return
+				}
+				ref.CommitHead(db, op.Branch, m, &objects.Commit{AuthorName: "dia", AuthorEmail: "dia@x", Message: "diamond"}, nil)
+				db.Close()
+				n.Objs.TakeMonErrs()
+				res.probe("merge_with_uneven_arms", 1)
+			}
+			continue
 		case "rcopy":
 			// a third party resets a branch of the remote to where another branch is (force push by someone else)
 			if op.Node != "R" || !validBranch {
@@ -1182,7 +1260,7 @@ func execNet(t *testing.T, raw json.RawMessage, res *Result, focus string) {
 				// without any fault an operation may only fail for a reason the user is told about and can act on
 				msg := cr.Err.Error() + "\n" + cr.Stdout
 				expected := false
-				for _, ok := range []string{"failed to fetch some refs", "failed to push some refs", "non-fast-forward", "rejected", "nothing to create ref", "table not found", "try fetching it", "wrgl fetch tables", "is not a branch name", "can't find branch", "can't find commit", "conflict", "nothing to push", "does not match any", "remote rejected", "unrelated", "common ancestor", "no upstream", "Everything up-to-date", "primary key differs", "can't merge", "shallow", "no refspec specified", "has no parent", "/dev/tty"} {
+				for _, ok := range []string{"failed to fetch some refs", "failed to push some refs", "non-fast-forward", "rejected", "nothing to create ref", "table not found", "try fetching it", "wrgl fetch tables", "is not a branch name", "can't find branch", "can't find commit", "conflict", "nothing to push", "does not match any", "remote rejected", "unrelated", "common ancestor", "no upstream", "Everything up-to-date", "primary key differs", "can't merge", "shallow", "no remote found for table", "no refspec specified", "has no parent", "/dev/tty"} {
 					if strings.Contains(msg, ok) {
 						expected = true
 					}
